@@ -292,8 +292,8 @@ def explore(fam, tier='quick', budget_s=60, timeout_ms=3000, slow_ms=20000, max_
         if event == 'call':
             co = frame.f_code
             fn = co.co_filename
-            if 'Geometry3D' in fn and '/repo/' in fn:
-                seen_funcs.add('%s:%s' % (fn.split('/repo/')[1], co.co_qualname if hasattr(co, 'co_qualname') else co.co_name))
+            if '/Geometry3D/' in fn and '/site-packages/' not in fn:
+                seen_funcs.add('%s:%s' % ('Geometry3D/' + fn.split('/Geometry3D/', 1)[1], co.co_qualname if hasattr(co, 'co_qualname') else co.co_name))
 
     first = True
     while work:
